@@ -61,6 +61,8 @@ pub enum Site {
     BufRingTailStored,
     PollingSet,
     PollingWake,
+    /// Any operation on one of the atomic shims below.
+    Atomic,
 }
 
 static HOOKS: AtomicPtr<Hooks> = AtomicPtr::new(std::ptr::null_mut());
@@ -101,3 +103,117 @@ pub(crate) fn scheduler() -> Option<&'static Hooks> {
         _ => None,
     }
 }
+
+/// Drop-in replacements for the `std::sync::atomic` integers A10 uses, so that
+/// *every* atomic access (also ones added later) is a scheduling point.
+/// Same layout as the std types (the kernel-shared ring words are accessed
+/// through pointers of these types).
+macro_rules! atomic_shim {
+    ($name:ident, $prim:ty) => {
+        #[repr(transparent)]
+        pub struct $name(std::sync::atomic::$name);
+
+        #[allow(dead_code)]
+        impl $name {
+            pub const fn new(value: $prim) -> $name {
+                $name(std::sync::atomic::$name::new(value))
+            }
+
+            pub unsafe fn from_ptr<'a>(ptr: *mut $prim) -> &'a $name {
+                unsafe { &*ptr.cast::<$name>() }
+            }
+
+            #[inline]
+            fn point(&self) {
+                yield_point(Site::Atomic, std::ptr::from_ref(self).addr());
+            }
+
+            pub fn load(&self, order: Ordering) -> $prim {
+                self.point();
+                self.0.load(order)
+            }
+
+            pub fn store(&self, value: $prim, order: Ordering) {
+                self.point();
+                self.0.store(value, order);
+            }
+
+            pub fn swap(&self, value: $prim, order: Ordering) -> $prim {
+                self.point();
+                self.0.swap(value, order)
+            }
+
+            pub fn fetch_or(&self, value: $prim, order: Ordering) -> $prim {
+                self.point();
+                self.0.fetch_or(value, order)
+            }
+
+            pub fn fetch_and(&self, value: $prim, order: Ordering) -> $prim {
+                self.point();
+                self.0.fetch_and(value, order)
+            }
+
+            pub fn fetch_xor(&self, value: $prim, order: Ordering) -> $prim {
+                self.point();
+                self.0.fetch_xor(value, order)
+            }
+
+            pub fn fetch_add(&self, value: $prim, order: Ordering) -> $prim {
+                self.point();
+                self.0.fetch_add(value, order)
+            }
+
+            pub fn fetch_sub(&self, value: $prim, order: Ordering) -> $prim {
+                self.point();
+                self.0.fetch_sub(value, order)
+            }
+
+            pub fn compare_exchange(
+                &self,
+                current: $prim,
+                new: $prim,
+                success: Ordering,
+                failure: Ordering,
+            ) -> Result<$prim, $prim> {
+                self.point();
+                self.0.compare_exchange(current, new, success, failure)
+            }
+
+            pub fn compare_exchange_weak(
+                &self,
+                current: $prim,
+                new: $prim,
+                success: Ordering,
+                failure: Ordering,
+            ) -> Result<$prim, $prim> {
+                self.point();
+                // No spurious failures: keeps runs repeatable.
+                self.0.compare_exchange(current, new, success, failure)
+            }
+
+            pub fn fetch_update<F>(&self, set: Ordering, fetch: Ordering, mut f: F) -> Result<$prim, $prim>
+            where
+                F: FnMut($prim) -> Option<$prim>,
+            {
+                let mut prev = self.load(fetch);
+                while let Some(next) = f(prev) {
+                    match self.compare_exchange(prev, next, set, fetch) {
+                        Ok(value) => return Ok(value),
+                        Err(value) => prev = value,
+                    }
+                }
+                Err(prev)
+            }
+        }
+
+        impl std::fmt::Debug for $name {
+            fn fmt(&self, f: &mut std::fmt::Formatter<'_>) -> std::fmt::Result {
+                self.0.fmt(f)
+            }
+        }
+    };
+}
+
+atomic_shim!(AtomicU8, u8);
+atomic_shim!(AtomicU16, u16);
+atomic_shim!(AtomicU32, u32);
